@@ -177,3 +177,38 @@ def remove_while_indexing(fv):
                         bad = b
         out.append((bi, src, bad))
     return out
+
+
+def mutating_short_circuit_closures(prog, fv):
+    """Closures handed to a short-circuiting iterator method (any / all / find / position / find_map) that mutate
+    their argument: the method stops at the first hit, so the mutation reaches only a prefix of the elements.
+    Returns [(block, method, closure key, what)]."""
+    import re as _re
+    out = []
+    for bi, t in fv.calls(_re.compile(r".*Iterator::(any|all|find|position|find_map|rposition)$")):
+        meth = t["f"]["name"].split("::")[-1]
+        for a in t["args"]:
+            p = a.get("m") or a.get("c")
+            if not p or p.get("p") or "{closure@" not in fv.f["locals"][p["l"]]:
+                continue
+            ck = None
+            for b2, si, s2 in fv.defs().get(p["l"], []):
+                if si != "t" and s2["rv"]["r"] == "agg" and s2["rv"].get("k") == "closure":
+                    ck = s2["rv"]["def"]
+            if not ck or ck not in prog.ix:
+                continue
+            cf = prog.fn(ck)
+            what = None
+            # calls of `&mut self` methods on the element, or stores through the element reference
+            for blk in cf["blocks"]:
+                tt = blk["t"]
+                if tt["t"] == "call":
+                    k2 = tt["f"].get("rkey") or tt["f"].get("key")
+                    if k2 in prog.ix and prog.fn(k2)["argc"] >= 1 and prog.fn(k2)["locals"][1].startswith("&mut"):
+                        what = "calls %s" % prog.name(k2).split("::")[-1]
+                for s3 in blk["s"]:
+                    if "rv" in s3 and s3["p"].get("p") and s3["p"]["l"] <= cf["argc"] and "*" in [x for x in s3["p"]["p"] if isinstance(x, str)]:
+                        what = what or "writes through its argument"
+            if what:
+                out.append((bi, meth, ck, what))
+    return out
